@@ -141,9 +141,9 @@ func TestVerifConfRateLimit(t *testing.T) {
 			report("ratelimit-limiter-settings", "hook.CreateRateLimiter", fmt.Sprintf("I=%s B=%d: limiter %v/%d", sc.interval, sc.burst, lim.Limit(), lim.Burst()))
 		}
 		// every window [starts[i], starts[j]]: j-i+1 executions must fit B + ceil(T/I); the recorded
-		// times are taken inside the hook process (after the token was granted), a slack of 40ms
+		// times are taken inside the hook process (after the token was granted), a slack of 100ms
 		// covers process start jitter
-		const slack = 40 * time.Millisecond
+		const slack = 100 * time.Millisecond
 		for i := range starts {
 			for j := i; j < len(starts); j++ {
 				T := starts[j] - starts[i] + slack
